@@ -12,3 +12,16 @@ Record mass_case := {
 Definition mass_ok (c : mass_case) : bool :=
   Nat.eqb (length (mc_ended c)) (mc_n c) && forallb (fun b => b) (mc_ended c) &&
   negb (Nat.eqb (mc_late_sub c) 200) && negb (mc_late_sub_received c) && negb (Nat.eqb (mc_late_pub c) 200).
+
+(* Updates are distinct even when publishers give them the same id: the subscriber's stream (live, and replayed from the
+   whole history with the persistent transport) carries every accepted matching update once, in order - identified here
+   by their payloads. *)
+Record dup_case := {
+  dc_published : list N;        (* payloads, in publish order (every publish was accepted) *)
+  dc_live : list N;             (* payloads on the stream of a subscriber connected before the first publish *)
+  dc_replayed : option (list N) (* payloads on the stream of a subscriber asking for "earliest" afterwards (Bolt) *)
+}.
+
+Definition dup_ok (c : dup_case) : bool :=
+  Ns_eqb (dc_live c) (dc_published c) &&
+  match dc_replayed c with Some l => Ns_eqb l (dc_published c) | None => true end.
